@@ -140,11 +140,36 @@ class HostWorld:
             self._release.set()
         self.loop.settle()
 
+    def start_reset(self):
+        """the real `ZBOSS.reset()`; the serial re-open (`connect`) is replaced by a fresh protocol on a recording transport"""
+        from zigpy_zboss import uart
+        import zigpy_zboss.config as conf
+        world = self
+
+        async def connect():
+            cfg = self.api._config[conf.CONF_DEVICE]
+            p = uart.ZbossNcpProtocol(cfg, self.api)
+            p._transport = self.tr
+            self.api._uart = p
+            self.p = p
+            self.log.append("RECONNECTED")
+        self.api.connect = connect
+
+        async def runner():
+            self.cur.set(99)
+            return await self.api.reset()
+        tk = self.loop.create_task(runner())
+        self.reset_task = tk
+        tk.add_done_callback(lambda tk: self.log.append(
+            "RESETDONE=%s" % ("CANCELLED" if tk.cancelled() else type(tk.exception()).__name__ if tk.exception() else "OK")))
+        self.loop.settle()
+
     def now_ms(self):
         return int(round(self.loop.time() * 1000))
 
     def shutdown(self):
-        for tk in list(self.tasks.values()) + ([self._holder] if hasattr(self, "_holder") else []):
+        for tk in (list(self.tasks.values()) + ([self._holder] if hasattr(self, "_holder") else [])
+                   + ([self.reset_task] if hasattr(self, "reset_task") else [])):
             if not tk.done():
                 tk.cancel()
         try:
